@@ -26,15 +26,16 @@ Section Inner.
       do _ <- from_ok R (rb + rvo);
       do o <- sc lw (lb + lvo) rw (rb + rvo);
       match o with
-      | Eq => arr_loop_w f (i + 1) len (joff + 4) lb rb (lvo + je_len lw) (rvo + je_len rw) llen rlen
+      | Eq => arr_loop_w f (i + 1) len (joff + CMA_JSTEP) lb rb (lvo + je_len lw) (rvo + je_len rw) llen rlen
       | _ => Ok o
       end
     else Ok (N.compare llen rlen)
     end.
   Definition compare_array_w (lh lb rh rb : N) : res comparison :=
     let llen := hdr_len lh in let rlen := hdr_len rh in
-    let len := if llen <=? rlen then llen else rlen in
-    arr_loop_w (S (length L)) 0 len 0 lb rb (4 * llen) (4 * rlen) llen rlen.
+    (* loop bound, initial offsets, stride: generated from compare_array (gen/Constants.v, CMA_...) *)
+    let len := CMA_LEN llen rlen in
+    arr_loop_w (S (length L)) 0 len CMA_JOFF lb rb (CMA_LVOFF llen) (CMA_RVOFF rlen) llen rlen.
 
   (* compare_object: all key entry words of both sides first (Err when one cannot be read) *)
   Definition rd_words_res (bs : list N) (len joff : N) : res (list N) :=
@@ -53,7 +54,7 @@ Section Inner.
             do _ <- from_ok R (rb + rvo);
             do vo <- sc lw (lb + lvo) rw (rb + rvo);
             match vo with
-            | Eq => obj_loop_w lks rks (ljo + 4) (rjo + 4) lb rb (lko + je_len lk) (rko + je_len rk)
+            | Eq => obj_loop_w lks rks (ljo + CMO_LJSTEP2) (rjo + CMO_RJSTEP2) lb rb (lko + je_len lk) (rko + je_len rk)
                                (lvo + je_len lw) (rvo + je_len rw) llen rlen
             | _ => Ok vo
             end
@@ -63,18 +64,22 @@ Section Inner.
     end.
   Definition compare_object_w (lh lb rh rb : N) : res comparison :=
     let llen := hdr_len lh in let rlen := hdr_len rh in
-    do lkws <- rd_words_res L llen lb;
-    do rkws <- rd_words_res R rlen rb;
-    obj_loop_w lkws rkws (4 * llen) (4 * rlen) lb rb (8 * llen) (8 * rlen)
-               (8 * llen + sum_je_len lkws) (8 * rlen + sum_je_len rkws) llen rlen.
+    (* initial offsets and strides: generated from compare_object (CMO_...); the two first loops advanced the entry offsets by
+       CMO_xJSTEP1 per key and the value offsets by the key lengths.  The loop below runs over the shorter key list
+       (CMO_LEN = the smaller count: CompareWalkProofs.CMO_LEN_min) *)
+    do lkws <- rd_words_res L llen (lb + CMO_LJOFF);
+    do rkws <- rd_words_res R rlen (rb + CMO_RJOFF);
+    obj_loop_w lkws rkws (CMO_LJOFF + CMO_LJSTEP1 * llen) (CMO_RJOFF + CMO_RJSTEP1 * rlen) lb rb (CMO_LKOFF llen) (CMO_RKOFF rlen)
+               (CMO_LVOFF llen + sum_je_len lkws) (CMO_RVOFF rlen + sum_je_len rkws) llen rlen.
 
   (* compare_container on the payloads at lo / ro *)
   Definition compare_container_w (lo ro : N) : res comparison :=
     do lh <- rd L lo;
     do rh <- rd R ro;
     let lt := hdr_type lh in let rt := hdr_type rh in
-    if (lt =? ARRAY_CONTAINER_TAG) && (rt =? ARRAY_CONTAINER_TAG) then compare_array_w lh (lo + 4) rh (ro + 4)
-    else if (lt =? OBJECT_CONTAINER_TAG) && (rt =? OBJECT_CONTAINER_TAG) then compare_object_w lh (lo + 4) rh (ro + 4)
+    (* &left[4..], &right[4..]: generated from compare_container (CMP_...) *)
+    if (lt =? ARRAY_CONTAINER_TAG) && (rt =? ARRAY_CONTAINER_TAG) then compare_array_w lh (lo + CMP_ARR_LSKIP) rh (ro + CMP_ARR_RSKIP)
+    else if (lt =? OBJECT_CONTAINER_TAG) && (rt =? OBJECT_CONTAINER_TAG) then compare_object_w lh (lo + CMP_OBJ_LSKIP) rh (ro + CMP_OBJ_RSKIP)
     else if (lt =? ARRAY_CONTAINER_TAG) && (rt =? OBJECT_CONTAINER_TAG) then Ok Gt
     else if (lt =? OBJECT_CONTAINER_TAG) && (rt =? ARRAY_CONTAINER_TAG) then Ok Lt
     else Err EOther.
@@ -112,17 +117,18 @@ Definition compare_b (L R : list N) : res comparison :=
   let fuel := S (length L + length R) in
   let isc t := t =? SCALAR_CONTAINER_TAG in let isa t := t =? ARRAY_CONTAINER_TAG in let iso t := t =? OBJECT_CONTAINER_TAG in
   if isc lt && isc rt then
-    do lw <- rd L 4;
-    do rw <- rd R 4;
-    do _ <- from_ok L 8;
-    do _ <- from_ok R 8;
-    compare_scalar_w fuel L R lw 8 rw 8
-  else if isa lt && isa rt then compare_array_w L R (compare_scalar_w fuel L R) lh 4 rh 4
-  else if iso lt && iso rt then compare_object_w L R (compare_scalar_w fuel L R) lh 4 rh 4
+    (* the literal offsets of `compare`: generated (gen/Constants.v, CPR_...) *)
+    do lw <- rd L CPR_SC_LJOFF;
+    do rw <- rd R CPR_SC_RJOFF;
+    do _ <- from_ok L CPR_SC_LSKIP;
+    do _ <- from_ok R CPR_SC_RSKIP;
+    compare_scalar_w fuel L R lw CPR_SC_LSKIP rw CPR_SC_RSKIP
+  else if isa lt && isa rt then compare_array_w L R (compare_scalar_w fuel L R) lh CPR_ARR_LSKIP rh CPR_ARR_RSKIP
+  else if iso lt && iso rt then compare_object_w L R (compare_scalar_w fuel L R) lh CPR_OBJ_LSKIP rh CPR_OBJ_RSKIP
   else if isc lt && (isa rt || iso rt) then
-    do lw <- rd L 4; Ok (if je_type lw =? NULL_TAG then Gt else Lt)
+    do lw <- rd L CPR_MIX_LJOFF; Ok (if je_type lw =? NULL_TAG then Gt else Lt)
   else if (isa lt || iso lt) && isc rt then
-    do rw <- rd R 4; Ok (if je_type rw =? NULL_TAG then Lt else Gt)
+    do rw <- rd R CPR_MIX_RJOFF; Ok (if je_type rw =? NULL_TAG then Lt else Gt)
   else if isa lt && iso rt then Ok Gt
   else if iso lt && isa rt then Ok Lt
   else Err EOther.
